@@ -2,9 +2,10 @@
 no length/index read from untrusted bytes sizes an allocation, indexes or slices memory, or
 feeds an unsafe access without a dominating check; no unwrap/panic is decided by such a value."""
 from vlib import fixtures
+from vlib.mir import Fn
 import re
 
-from rules import taint
+from rules import taint, trunc
 
 FILES = ['src/entropy/huffman.rs', 'src/entropy/fse.rs', 'src/entropy/rans.rs', 'src/entropy/dictionary.rs',
          'src/compression/mod.rs', 'src/compression/simd_lz77.rs', 'src/compression/dict_zip/compressor.rs',
@@ -40,8 +41,18 @@ def analyse(ctx, fx, files=FILES, prefix=""):
 
 def run(ctx):
     fx = ctx.facts("default")
-    fixtures.run(ctx, ['taint'])
+    fixtures.run(ctx, ['taint', 'trunc'])
     cl, entries, res = analyse(ctx, fx)
+    nt = 0
+    for fid in fx.fn_ids():
+        if '::tests::' in fid or '::test_' in fid:
+            continue
+        for k in range(fx.count(fid)):
+            rec = fx.raw(fid, k)
+            if rec['file'].startswith('src/'):
+                nt += trunc.check(ctx, Fn(rec))
+    ctx.instance('R-TRUNC.decoders', nt)
+    ctx.floor('R-TRUNC.decoders', 8)
     ctx.floor("entries", 150)
     ctx.floor("closure_fns", 180)
     ctx.floor("untrusted_sinks", 35)
@@ -49,9 +60,10 @@ def run(ctx):
     ctx.extra["entry_sample"] = entries[:25]
     ctx.extra["untrusted_struct_fields"] = {"bytes": sorted(cl.summ.reg_buf)[:40], "integers": sorted(cl.summ.reg_scalar)[:60]}
     return dict(
-        level_note="decides four structural clauses of C15 (allocation from unvalidated length, unguarded index/slice, "
-                   "unguarded unsafe access, unwrap/panic decided by untrusted data) for the closure of the parser entry "
-                   "points; guard SHAPE is checked (a dominating comparison of a value covering the untrusted operand "
+        level_note="decides five structural clauses of C15 (allocation from unvalidated length, unguarded index/slice, "
+                   "unguarded unsafe access, unwrap/panic decided by untrusted data - for the closure of the parser entry "
+                   "points - and R-TRUNC: every variable-length integer decoder in the crate reports success only after a byte "
+                   "with a clear continuation bit); guard SHAPE is checked (a dominating comparison of a value covering the untrusted operand "
                    "against a trusted bound, refusing on the large side), guard ARITHMETIC is not; loop termination and "
                    "decompression-bomb amplification are not decided; struct fields are abstracted by type.",
         explanation="interprocedural taint analysis over MIR: BUF (untrusted content) and SCALAR (integers read from it, each "
